@@ -607,6 +607,32 @@ def own_writeback(ctx: Ctx) -> RuleResult:
     return r
 
 
+def _setup_rebinds(ctx: Ctx) -> set:
+    """Statements that re-bind self.results from a scheduler run of a setup-only graph (the licence OWN-SETUP checks)."""
+    def build():
+        from .gt import _graph_origin
+
+        out = set()
+        for f in ctx.funcs():
+            if f.cls is None:
+                continue
+            for n in iter_own_nodes(f.node):
+                if not isinstance(n, ast.Assign):
+                    continue
+                flat = []
+                for t in n.targets:
+                    flat += list(t.elts) if isinstance(t, ast.Tuple) else [t]
+                if not any(norm_src(t) == "self.results" for t in flat):
+                    continue
+                v = n.value.value if isinstance(n.value, ast.Await) else n.value
+                if isinstance(v, ast.Call) and (dotted(v.func) or "").split(".")[-1] in ("sync_execute", "async_execute"):
+                    g = next((k.value for k in v.keywords if k.arg == "graph"), None)
+                    if g is not None and _graph_origin(ctx, f, g) == "setup-only":
+                        out.add(id(n))
+        return out
+    return ctx.memo("own.setup_rebinds", build)
+
+
 def own_setup(ctx: Ctx) -> RuleResult:
     """The only re-binding of a DAG's results on a run path is setup(), from an execution of the setup-only graph."""
     r = RuleResult("OWN-SETUP")
@@ -632,13 +658,13 @@ def own_setup(ctx: Ctx) -> RuleResult:
                         from .gt import _graph_origin
 
                         origin = _graph_origin(ctx, f, g)
-                    ok = is_sched and origin == "setup-only" and f.name == "setup"
+                    ok = is_sched and origin == "setup-only"
                     r.ob(ok, {"re-binding": norm_src(n)[:100], "in": f.short, "graph origin": origin})
                     if not ok:
-                        r.violate(f"{f.short}: the DAG's results are re-bound outside setup() on a setup-only graph", f.loc(n),
+                        r.violate(f"{f.short}: the DAG's results are re-bound from an execution of a graph that is not setup-only", f.loc(n),
                                   "results of non-setup nodes would persist in the DAG instance and be pruned from later calls",
                                   norm_src(n))
-    r.require(n_rebind >= 2, f"re-bindings of the DAG's results found: {n_rebind} (expected setup() of both flavours)")
+    r.require(n_rebind >= 2, f"re-bindings of the DAG's results found: {n_rebind} (expected the setup path of both flavours)")
     # the setup-only filter
     from .gt import _pre_setup_filters
 
@@ -679,7 +705,7 @@ def own_run(ctx: Ctx) -> RuleResult:
             elif root[0] == "shared":
                 if id(m["stmt"]) in licensed:
                     r.ob(True, dict(inst, note="licensed: OWN-WRITEBACK"))
-                elif m["how"].startswith("attribute write") and m.get("attr") == "results" and f.name == "setup":
+                elif m["how"].startswith("attribute write") and m.get("attr") == "results" and id(m["stmt"]) in _setup_rebinds(ctx):
                     r.ob(True, dict(inst, note="licensed: OWN-SETUP"))
                 else:
                     r.ob(False, inst)
